@@ -387,6 +387,79 @@ def check_lifecycle(seq) -> Res:
     return Res("ok" if not viol else "violations", nontrivial=tuple(seq), violations=viol[:3], transitions=steps)
 
 
+FROZEN_EVENTS = ["install_good", "corrupt_same_size_keep_times", "corrupt_same_size", "corrupt_other_size", "delete", "touch"]
+
+
+def check_frozen_lifecycle(seq) -> Res:
+    """Explicit-state walk over the cache file of a pinned schema (frozen@sha256:<digest>, ~/.octave/standards/<digest[:16]>.oct.md):
+    state = bytes of that file in {absent, pinned, corrupt}; after EVERY event octave_write is asked with the SAME reference in one
+    long-lived process.  VALIDATED / INVALID may only be answered while the file's bytes hash to the digest; otherwise the schema is
+    not loadable and the status must be UNVALIDATED - whatever an earlier call verified."""
+    L = sl.lab()
+    home = os.path.join(L["dir"], f"fh{os.getpid()}")
+    cache = os.path.join(home, ".octave", "standards")
+    os.makedirs(cache, exist_ok=True)
+    NAME = "FRZ_" + hashlib.sha1("/".join(seq).encode()).hexdigest()[:6].upper()
+    pinned = sl.schema_text(NAME, LIFE_V1, "REJECT")
+    digest = hashlib.sha256(pinned.encode()).hexdigest()
+    corrupt = pinned.replace("ENUM[", "ENUM[Z", 1)[: len(pinned)]
+    corrupt = corrupt + "\n" * (len(pinned) - len(corrupt))
+    corrupt2 = sl.schema_text(NAME, LIFE_V2, "REJECT", version="2.0") + "// longer\n"
+    path = os.path.join(cache, digest[:16] + ".oct.md")
+    if os.path.exists(path):
+        os.unlink(path)
+    ref = f"frozen@sha256:{digest}"
+    doc_ok = inst(f"{NAME}:\n  STATUS::ACTIVE\n  NAME::n\n")
+    old_home = os.environ.get("HOME")
+    os.environ["HOME"] = home
+    viol, trace, steps = [], [], 0
+    state = "absent"
+    try:
+        for ev in seq:
+            if ev == "install_good":
+                with open(path, "wb") as f:
+                    f.write(pinned.encode())
+                state = "pinned"
+            elif ev.startswith("corrupt"):
+                if not os.path.exists(path):
+                    trace.append(ev)
+                    continue
+                st0 = os.stat(path)
+                with open(path, "wb") as f:
+                    f.write((corrupt2 if ev == "corrupt_other_size" else corrupt).encode())
+                if ev == "corrupt_same_size_keep_times":
+                    os.utime(path, ns=(st0.st_atime_ns, st0.st_mtime_ns))
+                state = "corrupt"
+            elif ev == "delete":
+                if os.path.exists(path):
+                    os.unlink(path)
+                state = "absent"
+            elif ev == "touch":
+                if os.path.exists(path):
+                    os.utime(path, None)
+            trace.append(ev)
+            cs = dict(tool="frozen_lifecycle", events=list(trace), state=state)
+            w = sl.call("w", target_path=os.path.join(L["dir"], "work", f"frz{os.getpid()}.oct.md"), content=doc_ok, schema=ref, corrections_only=True)
+            steps += 1
+            got = w.get("validation_status")
+            if state != "pinned" and got != "UNVALIDATED":
+                viol.append(dict(descriptor=f"frozen-lifecycle:write:{got}-but-cache-file-is-{state}", case=cs, observed=(got, str(w.get("errors"))[:200]),
+                                 expected="UNVALIDATED: the cached file does not hash to the pinned digest"))
+            if state == "pinned" and got != "VALIDATED":
+                viol.append(dict(descriptor=f"frozen-lifecycle:write:{got}-but-cache-file-is-the-pinned-text", case=cs, observed=(got, str(w.get("errors"))[:200], str(w.get("validation_errors"))[:200]),
+                                 expected="VALIDATED: the file hashes to the digest and the document satisfies it"))
+            if got not in STATUSES:
+                viol.append(dict(descriptor=f"frozen-lifecycle:write:status-missing", case=cs, observed=got, expected="one of the three statuses"))
+    finally:
+        if old_home is None:
+            os.environ.pop("HOME", None)
+        else:
+            os.environ["HOME"] = old_home
+        if os.path.exists(path):
+            os.unlink(path)
+    return Res("ok" if not viol else "violations", nontrivial=tuple(seq), extra_nontrivial=[(tuple(seq), state)], violations=viol[:2], transitions=steps)
+
+
 def run(ctx):
     flags = list(itertools.product([False, True], repeat=5))
     contents = sorted(CONTENTS)
@@ -406,6 +479,7 @@ def run(ctx):
     ctx.explore("write_mutations", Product(list(range(len(MUTATIONS))), ["content", "changes"], [False, True], [False, True]), check_mutations, chunk=10)
     from ..explore import Sequences
     ctx.explore("schema_lifecycle", Sequences(LIFE_EVENTS, 4 if ctx.quick else 5, 1), check_lifecycle, chunk=20)
+    ctx.explore("frozen_lifecycle", Sequences(FROZEN_EVENTS, 3 if ctx.quick else 4, 1), check_frozen_lifecycle, chunk=20)
     sl.cleanup()
     if _AWAY.get("d"):
         shutil.rmtree(_AWAY["d"], ignore_errors=True)
@@ -419,6 +493,8 @@ def replay(ctx, rp):
             r = check_mutations((MUTATIONS.index(c["mutation"]), c["mode"], c["lenient"], c["corrections_only"]))
         elif t == "lifecycle":
             r = check_lifecycle(tuple(c["events"]))
+        elif t == "frozen_lifecycle":
+            r = check_frozen_lifecycle(tuple(c["events"]))
         elif t == "validate":
             r = check_validate((c["content"], c["schema"], c["profile"], (c["fix"], c["diff_only"], c["compact"], c["grammar_hint"], c["debug_grammar"])))
         elif t == "write":
